@@ -347,6 +347,13 @@ class Gen:
             sc2 = self.slot()
             self.emit("ca", sc2, rc, ("V", q))
             self.use_scores(sc2)
+            # the reverse complement is a matrix of its own: its p-values come from its own distribution
+            self.use_pvalues(rc, width, protein)
+            if self.chance(0.3):
+                rc2 = self.slot()
+                self.emit("rc", rc2, rc)
+                self.use_pvalues(rc2, width, protein)
+                self.emit("ms", rc2)
 
     def t_reuse(self):
         """one striped sequence reused with motifs of different widths (both alphabets)"""
